@@ -32,6 +32,11 @@ CHECKS = {
     note="PARTIAL: the constraint rewrite's spelling sensitivity is outside the theorems. Trusted: Coq kernel+vm_compute, recorders, RDKit for variant generation and the canonical-multiset oracle.",
     technique="Coq proof (solver and comparator invariant under entry order of the composition dictionaries) + metamorphic differential runs",
     design="7/C14"),
+ "C17": dict(
+    text="Machine-checked proof (Coq) over Model/Normalize.v (normalize_smiles and wc_similarity; leaf normalisation of one molecule and fingerprint similarity are oracles): for EVERY leaf oracle, two reactions whose sides have permuted lists of leaf images (any molecule order, any spelling the leaf maps to the same string) get the SAME normal form; normalisation is idempotent (leaf idempotent, one molecule per leaf image); equal normal forms give similarity exactly ONE; similarity is symmetric and in [0, ONE] for every symmetric fingerprint oracle with that range. All rest on the proved fact that the repaired sort key (atom count, character sum, string) is a total order (total, antisymmetric, transitive incl. a transitivity proof for String.leb) and that an insertion sort under a total order is permutation invariant. The pinned tree violated the order claim (two-component key ties on anagram isomers): repaired in /repo by a fix: commit; the old key is kept as C17_old_key_refuted. Correspondence: normalize_smiles vs the model inside Coq with recorded leaf tables on corpus reactions and an isomer family in all permutations / respellings / atom maps; oracle checks of idempotence, similarity 1, symmetry and range for the three methods.",
+    note="Oracle contract (RDKit canonical SMILES spelling independent and idempotent; fingerprints symmetric in [0,1]) is checked on every token/pair of the run, not proved. Strings are assumed ASCII. Trusted: Coq kernel+vm_compute, RDKit, harness.",
+    technique="Coq proof (total order on the sort key => permutation-invariant stable sort; idempotence; similarity algebra) + differential correspondence with recorded leaf oracle",
+    design="7/C17"),
  "C18": dict(
     text="Machine-checked proof (Coq): for every completed batch of the pipeline model, reaction_cnt = number of input rows, balanced_cnt = number of rows labelled input-balanced, confident_cnt = number of rows solved by the MCS method, mcs_applied = number of rows not attributed to input-balanced/rule-based, rb_solved <= rb_applied, mcs_solved <= mcs_applied. Correspondence: every recorded real batch replayed in the model with all seven counters compared; merged statistics of multi-batch runs checked against rows by an independent oracle.",
     note="The two lower bounds (solved count >= rows finally attributed to the method) are checked by the oracle only, not proved. Lost batches (C05's finding) are outside completed runs. Trusted: Coq kernel+vm_compute, recorders, harness.",
